@@ -6,3 +6,6 @@ from lib.common import mir_dump, beffdrv_build
 print('mir:', mir_dump('beff-core'))
 print('beffdrv:', beffdrv_build('dev'))
 print('beffdrv:', beffdrv_build('release'))
+from checks import c13
+c13.build_runtime()
+print('tsx + stripped/instrumented runtime built')
